@@ -11,6 +11,7 @@ import (
 
 	"github.com/cnotch/ipchub/av/codec"
 	"github.com/cnotch/ipchub/av/format/amf"
+	"github.com/cnotch/ipchub/utils/verifhook"
 	"github.com/cnotch/queue"
 	"github.com/cnotch/xlog"
 )
@@ -84,6 +85,7 @@ func (muxer *Muxer) Close() error {
 	}
 
 	muxer.closed = true
+	verifhook.Point("flvmuxer.close.flagged", muxer)
 	muxer.recvQueue.Signal()
 	return nil
 }
@@ -94,6 +96,8 @@ func (muxer *Muxer) TypeFlags() byte {
 }
 
 func (muxer *Muxer) process() {
+	verifhook.Point("flvmuxer.enter", muxer)
+	defer verifhook.Point("flvmuxer.exit", muxer)
 	defer func() {
 		defer func() { // 避免 handler 再 panic
 			recover()
@@ -110,6 +114,7 @@ func (muxer *Muxer) process() {
 	var packSequenceHeader bool
 
 	for !muxer.closed {
+		verifhook.Point("flvmuxer.beforePop", muxer)
 		f := muxer.recvQueue.Pop()
 		if f == nil {
 			if !muxer.closed {
